@@ -184,6 +184,17 @@ def model_case_text(hres, ptr, schedule):
         ptr, " ".join(str(k) for k in (schedule or [])), " ".join(mods))
 
 
+def _big_stack():
+    """the extracted model recurses on lists and character lists (tables of thousands of slots): give it the
+    stack the hard limit allows"""
+    import resource
+    try:
+        soft, hard = resource.getrlimit(resource.RLIMIT_STACK)
+        resource.setrlimit(resource.RLIMIT_STACK, (hard, hard))
+    except (ValueError, OSError):
+        pass
+
+
 def _model_shard(args):
     idx, lines, workdir = args
     inp = os.path.join(workdir, "mcases_%d.sexp" % idx)
@@ -191,7 +202,7 @@ def _model_shard(args):
     with open(inp, "w") as f:
         f.write("\n".join(lines) + "\n")
     p = subprocess.run([MODEL_BIN, inp, outp], stdout=subprocess.PIPE, stderr=subprocess.PIPE,
-                       timeout=600)
+                       timeout=600, preexec_fn=_big_stack)
     if p.returncode != 0:
         raise BuildError("model runner failed: " + p.stderr.decode(errors="replace")[-2000:])
     return [sx.parse(l)[0][1:] for l in open(outp, errors="replace") if l.strip()]
